@@ -21,10 +21,6 @@ SpecOf(g, d) ==
     [f |-> [j \in DOMAIN idx |-> [n |-> NameSeq[idx[j]], l |-> g[idx[j]]]], d |-> d, hasre |-> FALSE, re |-> <<>>]
 Specs == {SpecOf(g, d) : g \in [1..Len(NameSeq) -> -1..5], d \in -1..5}
 
-\* the only invalid regular expressions of the model alphabet are those with an unclosed "("
-ReSection(toks) == IF Count(toks, "slash") = 1 THEN SplitOn(toks, "slash")[2] ELSE <<>>
-ModelReOk(toks) == \A i \in DOMAIN ReSection(toks) : ReSection(toks)[i].s # "("
-
 A_q == {W("a"), L("info", 3), L("Warn", 2), EqT, CommaT, SlashT, WsT, W("(")}
 A_t == A_q \cup {L("OFF", 0), W("1"), W("::")}
 A_7 == {W("a"), L("info", 3), EqT, CommaT, SlashT, WsT}
